@@ -5,7 +5,16 @@ EXTENDS Lifecycle, Json
 VARIABLE hist
 
 GenInit == Init /\ hist = <<>>
-GenNext == Next /\ hist' = Append(hist, [act |-> last', proj |-> Proj'])
+(* the extended alphabet is explored by random walks (-simulate); fewer cut positions there so   *)
+(* that the walks are not dominated by the variants of TO2                                      *)
+ExtCuts == {NoCut, [kind |-> "resplost", t |-> 70], [kind |-> "reqlost", t |-> 64], [kind |-> "err255", t |-> 66]}
+NextExt ==
+    /\ steps < MaxSteps
+    /\ \/ \E c \in {NoCut, [kind |-> "resplost", t |-> 12]} : DI(c)
+       \/ \E k \in 0..1 : Handover(k)
+       \/ \E r \in BOOLEAN, c \in ExtCuts, u \in BOOLEAN : TO2(r, c, u)
+       \/ Resell \/ Persist \/ ResellBad \/ Restore \/ ResellMissing \/ Register \/ Expire \/ Locate
+GenNext == (IF Ext THEN NextExt ELSE Next) /\ hist' = Append(hist, [act |-> last', proj |-> Proj'])
 GenSpec == GenInit /\ [][GenNext]_<<vars, hist>>
 
 (* only histories that went somewhere: a complete onboarding is part of it *)
